@@ -876,7 +876,9 @@ public:
                     }
                     if (ignore_empty_values_ && buffer_.empty())
                     {
-                        state_ = csv_parse_state::end_record;
+                        // The ignored field may be the only one: the record it began is still ended
+                        end_record(local_visitor, ec);
+                        state_ = csv_parse_state::no_more_records;
                     }
                     else
                     {
